@@ -121,6 +121,21 @@ def run_case(ck, desc):
         ref = np.array([float(g_sc(float(x))) for x in down])
         if va.dtype.kind != "f" or va.shape != down.shape or not ck.margin(f"depletion-ordered array = scalar calls ({name})", float(np.max(np.abs(va.astype(float) - ref) / np.abs(ref))), 1e-12):
             ck.violation(f"ordering-holds-on-depletion-ordered-arrays.{name}", {"dtype": str(va.dtype), "integer_typed_parameters": [type(v).__name__ for v in (Ti, *ai)], "max_rel": float(np.max(np.abs(va.astype(float) - ref) / np.abs(ref))) if va.shape == down.shape else None}, desc)
+    # ... and as a column of a frame that was read top-down and then reversed / sorted: a pandas Series
+    # whose integer labels are not the positions
+    import pandas as pd
+
+    ser = pd.Series(down, index=np.arange(len(down))[::-1])
+    for name in ("Rs", "Bo"):
+        try:
+            vs_ = np.asarray(fns[name](ser), dtype=float)
+        except Exception as e:  # noqa: BLE001
+            ck.count(f"series_form_not_accepted.{type(e).__name__}")
+            continue
+        ref = np.array([float(fns[name](float(x))) for x in down])
+        if vs_.shape != down.shape or float(np.max(np.abs(vs_ - ref) / np.abs(ref))) > 1e-12:
+            ck.violation(f"ordering-holds-on-labelled-series.{name}", {"max_rel": float(np.max(np.abs(vs_ - ref) / np.abs(ref))) if vs_.shape == down.shape else None}, desc)
+    ck.count("series_with_permuted_integer_index")
     ck.count("arrays_with_repeated_pressures", 3)
     if int((T * 31.7 + api * 17.3 + gg * 1000.3) * 1000) % 40 == 0:
         # one call on a very long array (a field-wide history: 70 000 and 140 001 pressures through the
